@@ -285,6 +285,14 @@ def eval_tagger(case):
                 continue
             mol_serials.append(sorted(serials))
             n = len(frags)
+            # the site and strand tags of a valid fragment are those of the simulated cut (ties C06 to C09 through the tagger)
+            for name, os_ in (frags.items() if run['radius'] == 0 else []):   # with a radius the molecule carries one common site
+                key = truth[serial_of(name, spec['naming'])]['key']
+                for o in os_:
+                    if o['tags'].get('DS') != key[3] or ('RS' in o['tags'] and bool(o['tags']['RS']) != bool(key[2])):
+                        out.bad('tagger:site-or-strand-tag-differs-from-the-simulated-cut:%s' % run['method'],
+                                '%s: DS %r RS %r, simulated site %r strand %r' % (name, o['tags'].get('DS'), o['tags'].get('RS'), key[3], key[2]))
+                        break
             for name, os_ in frags.items():
                 if len({o['dup'] for o in os_}) > 1:
                     out.bad('tagger:mates-disagree-on-duplicate-bit', '%s %r' % (name, os_))
